@@ -4,13 +4,25 @@ A *schedule* for a stream of n octets assigns each of the n-1 gaps one of
 {0: no cut, 1: cut (separate deque entry), 2: cut and call the parser}; the parser is
 always called once more at the end (and once again: idempotence), and streams that end in
 an incomplete packet get the missing octets appended afterwards.  The reference model is
-the byte string itself.  DESIGN.md section 4, C13."""
+the byte string itself.  DESIGN.md section 4, C13.
+
+Two-queue mode: the analysis queue is caller-owned, so a process may run several of them
+(two TM links).  Two independent (stream, deque) pairs, each with its own schedule, and
+every merge of the two sequences of parser calls; the per-queue oracle is applied to BOTH
+queues after every parser call.  Appends do not involve the library, so they commute with
+the other queue's events: the merges of the parser-call sequences represent every
+interleaving of the finer {append chunk, parse} events.
+
+Independence (theme A): every list the parser returned and every bytearray in it is held
+(the very objects) and re-observed after every later parser call of the run and, through
+mc.alias.Keeper, after the following cases of the shard."""
 
 from __future__ import annotations
 
 import collections
 import itertools
 
+from mc.alias import Keeper
 from mc.rec import Rec, unhex
 from ref import ccsds as R
 
@@ -19,16 +31,27 @@ LEVEL = "model_checking"
 EXHAUSTIVE = True
 RULE = (
     "streams = sequences of <= B items from {A7,A9,B8,A13 (payload contains registered-ID octets), garbage runs G1,G3,G7 of 0xFF} "
-    "optionally ending in an incomplete packet (prefix 1..8 of A9); per stream every schedule in {no cut, cut, cut+parse}^(n-1) for "
+    "optionally ending in an incomplete packet (prefix 1..8 of A9); plus every stream of <= 3 items over {A7,B8,H2} that contains the "
+    "garbage run H2 = 00 19 (first octets of both registered IDs, never a registered ID) and streams around a 265-octet packet A265 "
+    "(length field 0x0102: both octets significant); per stream every schedule in {no cut, cut, cut+parse}^(n-1) for "
     "n <= NALL, and for longer streams every cut set with <= KCUT cuts x every choice of which cuts also parse; "
     "state-hashing exploration (position, exact chunk tuple, packets emitted) in the thorough tier. After every parser call: returned "
     "packets so far == the complete registered packets available, byte-identical and in order; the deque content is a suffix of the "
-    "appended octets, starts at or after the last returned packet and at or before the pending packet's first octet."
+    "appended octets, starts at or after the last returned packet and at or before the pending packet's first octet. "
+    "TWO QUEUES: every unordered pair (incl. twice the same) of the streams TWO_STREAMS (queue 2 uses different sequence counts and payload), "
+    "each stream cut at every cut set with <= 2 cuts (<= 3 chunks; total cuts bounded per tier), every merge of the two "
+    "parser-call sequences (incl. the completion of an incomplete tail), then one idle call per queue; both queues are checked with the "
+    "same oracle after EVERY call; registration modes: both IDs for both queues / each queue only the IDs occurring in its stream, "
+    "passed through ONE list object rewritten in place before each call. INDEPENDENCE: returned lists and bytearrays re-observed after "
+    "every later call of the run and after the next 2 cases of the shard."
 )
-BOUNDS = {"quick": "items<=3, all 3^(n-1) schedules for n<=11, <=3 cuts beyond (n<=34)", "thorough": "items<=3 all schedules n<=14, <=4 cuts beyond; items<=4 with <=2 cuts; state-hashing BFS on selected streams"}
+BOUNDS = {"quick": "items<=3, all 3^(n-1) schedules for n<=11, <=3 cuts beyond (n<=34); A265 streams <=1 cut; two queues: 9 streams (7..17 octets), 45 pairs, <=2 cuts per queue and <=3 in total, every cut parses, all merges",
+          "thorough": "items<=3 all schedules n<=14, <=4 cuts beyond; items<=4 with <=2 cuts; A265 streams <=2 cuts; state-hashing BFS on selected streams; two queues: <=2 cuts per queue (total <=4), cuts plain or parsing when total <=3, all merges"}
 ASSUMPTIONS = [
-    "garbage alphabet is 0xFF runs; the generator asserts that no two-octet window starting in garbage matches a registered ID under the 13-bit mask (the property only speaks about such octets)",
+    "garbage alphabet is 0xFF runs and 00 19; the generator asserts that no two-octet window starting in garbage matches a registered ID under the 13-bit mask (the property only speaks about such octets)",
     "single-threaded caller: schedules are append/parse interleavings, not thread interleavings",
+    "two-queue mode: appending to a deque does not involve the library, so only the order of parser calls (and the exact deque content at each call) is enumerated",
+    "independence: the caller does not modify returned packets or queued chunks; a returned list / bytearray is expected to keep its value while the library is used further",
 ]
 
 # registered ids: A = TM, no sec hdr, apid 0x055 (octets 00 55); B = TC, sec hdr, apid 0x123 (octets 19 23)
@@ -36,23 +59,36 @@ A = (0, 0, 0x055)
 B = (1, 1, 0x123)
 
 
-def _pkt(idt, total, seq):
+FILLERS = (bytes([0x19, 0x23, 0x00, 0x55, 0x00, 0x00, 0x00]), bytes([0x00, 0x55, 0x01, 0x02, 0x19, 0x23, 0x7F]))
+
+
+def _pkt(idt, total, seq, variant=0):
     typ, shf, apid = idt
-    hdr = R.sp_header(0, typ, shf, apid, 3, seq, total - 7)
+    hdr = R.sp_header(0, typ, shf, apid, 3, seq + 0x20 * variant, total - 7)
     # payload deliberately contains the octets of both registered IDs and a plausible length field
-    filler = bytes([0x19, 0x23, 0x00, 0x55, 0x00, 0x00, 0x00])
-    return hdr + filler[: total - 6]
+    filler = FILLERS[variant]
+    return hdr + (filler * (total // 7 + 1))[: total - 6]
 
 
-ITEMS = collections.OrderedDict()
-ITEMS["A7"] = _pkt(A, 7, 1)
-ITEMS["A9"] = _pkt(A, 9, 2)
-ITEMS["B8"] = _pkt(B, 8, 3)
-ITEMS["A13"] = _pkt(A, 13, 4)
-ITEMS["G1"] = b"\xff"
-ITEMS["G3"] = b"\xff" * 3
-ITEMS["G7"] = b"\xff" * 7
-PACKETS = ("A7", "A9", "B8", "A13")
+def _items(variant):
+    it = collections.OrderedDict()
+    it["A7"] = _pkt(A, 7, 1, variant)
+    it["A9"] = _pkt(A, 9, 2, variant)
+    it["B8"] = _pkt(B, 8, 3, variant)
+    it["A13"] = _pkt(A, 13, 4, variant)
+    it["A17"] = _pkt(A, 17, 5, variant)  # two-queue mode: longer than two short packets together
+    it["A265"] = _pkt(A, 265, 6, variant)  # length field 0x0102
+    it["G1"] = b"\xff"
+    it["G3"] = b"\xff" * 3
+    it["G7"] = b"\xff" * 7
+    it["H2"] = b"\x00\x19"  # first octet of ID A, first octet of ID B: half an ID is not an ID
+    return it
+
+
+ITEMS_V = (_items(0), _items(1))  # variant 1: queue 2 of the two-queue mode (other sequence counts, other payload)
+ITEMS = ITEMS_V[0]
+PACKETS = ("A7", "A9", "B8", "A13")  # alphabet of the enumerated streams
+ALL_PACKETS = PACKETS + ("A17", "A265")
 GARBAGE = ("G1", "G3", "G7")
 TAIL_SRC = "A9"
 
@@ -61,9 +97,16 @@ def ids_raw():
     return [(t << 12 | s << 11 | a) for (t, s, a) in (A, B)]
 
 
-def build_stream(names):
+_BUILD_CACHE = {}
+
+
+def build_stream(names, variant=0):
     """names: list of item names, the last may be 'T<k>' (first k octets of A9).
     returns (stream, spans of complete packets, tail_start or None, missing octets)"""
+    key = (tuple(names), variant)
+    if key in _BUILD_CACHE:
+        return _BUILD_CACHE[key]
+    items = ITEMS_V[variant]
     stream = b""
     spans = []
     tail_start = None
@@ -73,11 +116,11 @@ def build_stream(names):
         if nm.startswith("T"):
             k = int(nm[1:])
             tail_start = len(stream)
-            stream += ITEMS[TAIL_SRC][:k]
-            missing = ITEMS[TAIL_SRC][k:]
+            stream += items[TAIL_SRC][:k]
+            missing = items[TAIL_SRC][k:]
         else:
-            b = ITEMS[nm]
-            if nm in PACKETS:
+            b = items[nm]
+            if nm in ALL_PACKETS:
                 spans.append((len(stream), len(stream) + len(b)))
             else:
                 garbage_pos += list(range(len(stream), len(stream) + len(b)))
@@ -88,7 +131,27 @@ def build_stream(names):
     for p in garbage_pos:
         if p + 1 < len(full):
             assert ((full[p] << 8 | full[p + 1]) & 0x1FFF) not in raw, "garbage alphabet violates the precondition"
-    return stream, spans, tail_start, missing
+    _BUILD_CACHE[key] = (stream, spans, tail_start, missing)
+    return _BUILD_CACHE[key]
+
+
+def extra_stream_names():
+    """streams outside the product alphabet (theme: value conjunctions the product never reaches)"""
+    out = []
+    # every stream of <= 3 items over {A7, B8, H2} that contains H2 (no two adjacent H2), tails T2 / T7 while < 3 items
+    alpha = ("A7", "B8", "H2")
+    for L in range(1, 4):
+        for body in itertools.product(alpha, repeat=L):
+            if "H2" not in body or any(body[i] == "H2" == body[i + 1] for i in range(L - 1)):
+                continue
+            for t in ((None, "T2", "T7") if L < 3 else (None,)):
+                names = list(body) + ([t] if t else [])
+                if any(n in PACKETS or n.startswith("T") for n in names):
+                    out.append(names)
+    return out
+
+
+LONG_STREAMS = (["A265"], ["A7", "A265"], ["A265", "B8"], ["G3", "A265"], ["A265", "T7"], ["H2", "A265", "T3"])
 
 
 def stream_names(max_items):
@@ -112,18 +175,36 @@ def stream_names(max_items):
 
 
 # ------------------------------------------------------------------ one execution
-def run_schedule(sp, pids, stream, spans, tail_start, missing, sched):
+INDEP = "independence/parse_space_packets/result-changed-by-a-later-call-of-the-run"
+
+
+def _observe_held(objs):
+    return tuple(bytes(x) for x in objs)
+
+
+def run_schedule(sp, pids, stream, spans, tail_start, missing, sched, held=None):
     """sched: sequence of n-1 actions (0,1,2).  Returns None or (kind, detail)."""
     n = len(stream)
     dq = collections.deque()
     returned = []
+    objs = held if held is not None else []  # the very bytearrays the parser returned
+    lists = []  # (the very list a call returned, its value at that time)
     chunk_start = 0
     calls = 0
     outcome = []
 
     def check(pos, res):
         nonlocal returned
-        returned += [bytes(x) for x in res]
+        # independence: the lists and bytearrays handed out by earlier calls still have their value
+        for lst, snap in lists:
+            if [bytes(x) for x in lst] != snap:
+                return (INDEP + "/returned-list", {"pos": pos, "now": [bytes(x) for x in lst], "when_returned": snap})
+        if [bytes(x) for x in objs] != returned:
+            return (INDEP + "/returned-packet", {"pos": pos, "now": [bytes(x) for x in objs], "when_returned": returned})
+        if res is not None:
+            objs.extend(res)
+            lists.append((res, [bytes(x) for x in res]))
+            returned += [bytes(x) for x in res]
         expected = [stream_all[s:e] for (s, e) in all_spans if e <= pos]
         if returned != expected:
             if len(returned) < len(expected) and returned == expected[: len(returned)]:
@@ -162,7 +243,7 @@ def run_schedule(sp, pids, stream, spans, tail_start, missing, sched):
     res = sp.parse_space_packets(dq, pids)
     if res:
         return ("returned/packet-returned-twice", {"pos": n, "returned": [bytes(x) for x in res]}), calls, None
-    r = check(n, [])
+    r = check(n, None)
     if r:
         return (r[0] + "/after-idle-call", r[1]), calls, None
     if missing:
@@ -210,7 +291,7 @@ def _feature(stream, spans, tail_start, detail, sched):
     return "other"
 
 
-def explore_stream(rec, names, mode, kcut):
+def explore_stream(rec, names, mode, kcut, keeper):
     sp = _sp()
     pids = _pids(sp)
     stream, spans, tail_start, missing = build_stream(names)
@@ -219,7 +300,11 @@ def explore_stream(rec, names, mode, kcut):
     nsched = 0
     for sched in schedules_for(n, mode, kcut):
         nsched += 1
-        v, calls, outcome = run_schedule(sp, pids, stream, spans, tail_start, missing, sched)
+        held = []
+        v, calls, outcome = run_schedule(sp, pids, stream, spans, tail_start, missing, sched, held)
+        case = {"names": names, "sched": sched}
+        keeper.recheck(case)
+        keeper.hold("parse_space_packets", held, _observe_held, case)
         rec.transitions += calls + sum(1 for a in sched if a) + 1
         if v:
             kind, detail = v
@@ -255,6 +340,229 @@ def _repro(names, sched):
         "    dq.append(bytearray(stream[start:gap])); start = gap\n"
         "    if a == 2: out += parse_space_packets(dq, ids)\n"
         "print([bytes(p).hex() for p in out], [bytes(c).hex() for c in dq])\n"
+    )
+
+
+# ------------------------------------------------------------------ two independent queues
+TWO_STREAMS = (["A7"], ["B8"], ["A13"], ["A17"], ["B8", "A7"], ["G3", "A9"], ["A9", "T4"], ["A7", "T7"], ["B8", "T3"])
+REG_MODES = ("AB", "own")
+
+
+class _Queue:
+    """one (stream, deque) pair with the per-queue oracle of run_schedule, tables precomputed per position"""
+
+    def __init__(self, names, variant):
+        stream, spans, tail_start, missing = build_stream(names, variant)
+        self.names = names
+        self.n = len(stream)
+        self.full = stream + missing
+        self.N = len(self.full)
+        sp_all = list(spans) + ([(tail_start, tail_start + len(ITEMS[TAIL_SRC]))] if tail_start is not None else [])
+        self.packets = [self.full[s:e] for (s, e) in sp_all]
+        self.nexp = [sum(1 for (s, e) in sp_all if e <= pos) for pos in range(self.N + 1)]
+        self.last_end = [max([e for (s, e) in sp_all if e <= pos], default=0) for pos in range(self.N + 1)]
+        self.pend = [min([s for (s, e) in sp_all if e > pos and s < pos], default=None) for pos in range(self.N + 1)]
+        # registration "own": exactly the IDs that occur in the stream (tail = A9)
+        own = []
+        for nm in names:
+            idt = A if (nm.startswith("A") or nm.startswith("T")) else (B if nm.startswith("B") else None)
+            if idt is not None and idt not in own:
+                own.append(idt)
+        self.own = tuple(sorted(own))
+        self.reset()
+
+    def reset(self):
+        self.dq = collections.deque()
+        self.pos = 0
+        self.objs = []
+        self.lists = []
+
+    def events(self, sched):
+        """parser-call events of a schedule: each = list of (start, end) chunks appended before the call"""
+        evs, chunks, start = [], [], 0
+        for gap in range(1, self.n + 1):
+            a = sched[gap - 1] if gap < self.n else 2
+            if a == 0:
+                continue
+            chunks.append((start, gap))
+            start = gap
+            if a == 2:
+                evs.append(chunks)
+                chunks = []
+        if self.N > self.n:
+            evs.append([(self.n, self.N)])  # completion of the incomplete tail
+        return evs
+
+    def after_call(self, res):
+        """res: list returned by a call on THIS queue, None after a call on the other queue / an idle call"""
+        pos = self.pos
+        for lst, snap in self.lists:
+            if [bytes(x) for x in lst] != snap:
+                return (INDEP + "/returned-list", {"pos": pos, "now": [bytes(x) for x in lst], "when_returned": snap})
+        k = len(self.objs)
+        if [bytes(x) for x in self.objs] != self.packets[:k]:
+            return (INDEP + "/returned-packet", {"pos": pos, "now": [bytes(x) for x in self.objs], "when_returned": self.packets[:k]})
+        if res is not None:
+            new = [bytes(x) for x in res]
+            want = self.packets[k:self.nexp[pos]]
+            self.objs.extend(res)
+            self.lists.append((res, new))
+            if new != want:
+                kind = "returned/packet-missing" if (len(new) < len(want) and new == want[:len(new)]) else "returned/wrong-packets"
+                return (kind, {"pos": pos, "returned_by_this_call": new, "expected": want})
+        elif k != self.nexp[pos]:
+            return ("returned/packet-missing", {"pos": pos, "returned_so_far": self.packets[:k], "expected": self.packets[:self.nexp[pos]]})
+        q = b"".join(bytes(c) for c in self.dq)
+        qstart = pos - len(q)
+        if qstart < 0 or self.full[qstart:pos] != q:
+            return ("queue/not-a-suffix-of-appended-octets", {"pos": pos, "queue": q, "appended": self.full[:pos]})
+        if qstart < self.last_end[pos]:
+            return ("queue/contains-returned-octets", {"pos": pos, "queue": q})
+        pd = self.pend[pos]
+        if pd is not None and qstart > pd:
+            return ("queue/incomplete-tail-lost", {"pos": pos, "queue": q, "tail": self.full[pd:pos]})
+        return None
+
+
+def _reg_lists(sp, qs, reg):
+    """per queue the registration passed to the parser.  'AB': one list with both IDs, never touched.  'own': ONE list
+    object, rewritten in place before every call with exactly the IDs occurring in that queue's stream."""
+    mk = lambda ids: [sp.PacketId(sp.PacketType(t), bool(s), a) for (t, s, a) in ids]  # noqa: E731
+    if reg == "AB":
+        both = mk((A, B))
+        return both, [both, both]
+    return [], [mk(q.own) for q in qs]
+
+
+def run_two(sp, qs, evs, merge, reg, regctx):
+    """evs: per queue the parser-call events; merge: string over 'a','b' = order of the parser calls.
+    Returns None or (kind, which queue, detail); number of calls"""
+    for q in qs:
+        q.reset()
+    nxt = [0, 0]
+    ids_obj, regs = regctx
+    calls = 0
+
+    def call(i):
+        if reg == "own":
+            ids_obj[:] = regs[i]
+        return sp.parse_space_packets(qs[i].dq, ids_obj)
+
+    for ch in merge:
+        i = 0 if ch == "a" else 1
+        q = qs[i]
+        for (s, e) in evs[i][nxt[i]]:
+            q.dq.append(bytearray(q.full[s:e]))
+            q.pos = e
+        nxt[i] += 1
+        calls += 1
+        r = q.after_call(call(i))
+        if r:
+            return (r[0], "called-queue", r[1]), calls
+        r = qs[1 - i].after_call(None)
+        if r:
+            return (r[0], "other-queue", r[1]), calls
+    for i in (0, 1):  # idempotence: a call without new data returns nothing and changes neither queue
+        calls += 1
+        res = call(i)
+        if res:
+            return ("returned/packet-returned-twice", "called-queue", {"returned": [bytes(x) for x in res]}), calls
+        for j, which in ((i, "called-queue"), (1 - i, "other-queue")):
+            r = qs[j].after_call(None)
+            if r:
+                return (r[0] + "/after-idle-call", which, r[1]), calls
+    return None, calls
+
+
+def two_cutsets(n, kcuts, plain):
+    """every schedule with exactly kcuts cuts; cuts parse (2), or are plain / parsing in every combination if plain"""
+    for cs in itertools.combinations(range(n - 1), kcuts):
+        for acts in (itertools.product((1, 2), repeat=kcuts) if plain else ((2,) * kcuts,)):
+            s = [0] * (n - 1)
+            for g, a in zip(cs, acts):
+                s[g] = a
+            yield tuple(s)
+
+
+def two_budget(tier):
+    """(ka, kb, plain) combinations, simplest first"""
+    out = []
+    maxtot = 3 if tier == "quick" else 4
+    for tot in range(0, maxtot + 1):
+        for ka in range(0, 3):
+            kb = tot - ka
+            if 0 <= kb <= 2:
+                out.append((ka, kb, tier != "quick" and tot <= 3))
+    return out
+
+
+def _merges(m, k):
+    for pos in itertools.combinations(range(m + k), m):
+        t = ["b"] * (m + k)
+        for x in pos:
+            t[x] = "a"
+        yield "".join(t)
+
+
+def two_sig(kind, which):
+    return f"C13.{kind}/two-queues/{which}"
+
+
+def explore_two(rec, names_a, names_b, reg, ka, kb, plain, keeper):
+    sp = _sp()
+    qs = [_Queue(names_a, 0), _Queue(names_b, 1)]
+    ncase = 0
+    ncalls = 0
+    merge_cache = {}
+    regctx = _reg_lists(sp, qs, reg)
+    case = None
+    for sa in two_cutsets(qs[0].n, ka, plain):
+        ea = qs[0].events(sa)
+        ma = len(ea)
+        for sb in two_cutsets(qs[1].n, kb, plain):
+            eb = qs[1].events(sb)
+            mb = len(eb)
+            if (ma, mb) not in merge_cache:
+                merge_cache[(ma, mb)] = list(_merges(ma, mb))
+            for merge in merge_cache[(ma, mb)]:
+                ncase += 1
+                v, calls = run_two(sp, qs, (ea, eb), merge, reg, regctx)
+                ncalls += calls
+                case = {"two": [names_a, names_b], "scheds": [sa, sb], "merge": merge, "reg": reg}
+                keeper.recheck(case)
+                keeper.hold("parse_space_packets", qs[0].objs + qs[1].objs, _observe_held, case)
+                if v:
+                    kind, which, detail = v
+                    rec.violation(two_sig(kind, which), case, detail, None, repro=_repro_two(case))
+                else:
+                    rec.outcome("two:%d+%d packets, %d calls" % (len(qs[0].objs), len(qs[1].objs), calls))
+    rec.states += ncase
+    rec.traces += ncase
+    rec.evaluations += ncase
+    rec.nontrivial += ncase
+    rec.ops += ncalls
+    rec.transitions += ncalls
+    rec.count("two_queue_cases", ncase)
+    rec.count("two_queue_parser_calls", ncalls)
+    rec.count("two_queue_cases_reg_" + reg, ncase)
+    if ka + kb >= 2 and not any(isinstance(x, dict) and "two" in x for x in rec.samples):
+        rec.sample({"two": [names_a, names_b], "octets": [qs[0].full.hex(), qs[1].full.hex()], "cuts": [ka, kb], "reg": reg, "cases": ncase, "example": case}, limit=4)
+
+
+def _repro_two(case):
+    qa, qb = _Queue(case["two"][0], 0), _Queue(case["two"][1], 1)
+    own = {q: [("PacketId(PacketType.%s, %s, 0x%03x)" % ("TC" if t else "TM", bool(s), a)) for (t, s, a) in (x.own if case["reg"] == "own" else (A, B))]
+           for q, x in (("a", qa), ("b", qb))}
+    return (
+        "import collections\nfrom spacepackets.ccsds.spacepacket import *\n"
+        f"full = {{'a': bytes.fromhex('{qa.full.hex()}'), 'b': bytes.fromhex('{qb.full.hex()}')}}\n"
+        f"events = {{'a': {qa.events(case['scheds'][0])!r}, 'b': {qb.events(case['scheds'][1])!r}}}  # per parser call: chunks (start, end) appended before it\n"
+        f"ids = {{'a': [{', '.join(own['a'])}], 'b': [{', '.join(own['b'])}]}}\n"
+        "dq = {'a': collections.deque(), 'b': collections.deque()}; out = {'a': [], 'b': []}; reg = []\n"
+        f"for q in '{case['merge']}':\n"
+        "    for (s, e) in events[q].pop(0): dq[q].append(bytearray(full[q][s:e]))\n"
+        "    reg[:] = ids[q]; out[q] += parse_space_packets(dq[q], reg)\n"
+        "    print(q, {k: [bytes(p).hex() for p in v] for k, v in out.items()}, {k: [bytes(c).hex() for c in v] for k, v in dq.items()})\n"
     )
 
 
@@ -376,6 +684,22 @@ def shards(tier):
             items.append({"kind": "sched", "names": names, "mode": "all", "kcut": 0, "cost": 3 ** (n - 1)})
         else:
             items.append({"kind": "sched", "names": names, "mode": "cuts", "kcut": kcut, "cost": n ** kcut})
+    for names in extra_stream_names():
+        n = len(build_stream(names)[0])
+        items.append({"kind": "sched", "names": names, "mode": "cuts", "kcut": kcut, "cost": n ** kcut})
+    for names in LONG_STREAMS:
+        n = len(build_stream(names)[0])
+        kl = 1 if tier == "quick" else 2
+        items.append({"kind": "sched", "names": list(names), "mode": "cuts", "kcut": kl, "cost": 4 * (2 * n) ** kl})
+    for ia, na in enumerate(TWO_STREAMS):
+        for nb in TWO_STREAMS[ia:]:
+            la, lb = len(build_stream(na)[0]), len(build_stream(nb)[0])
+            for reg in REG_MODES:
+                if reg == "own" and _Queue(na, 0).own == _Queue(nb, 1).own == tuple(sorted((A, B))):
+                    continue  # same registration as mode AB
+                for (ka, kb, plain) in two_budget(tier):
+                    cost = 3 * _ncomb(la - 1, ka) * _ncomb(lb - 1, kb) * (4 ** (ka + kb) if plain else _ncomb(ka + kb + 2, ka + 1))
+                    items.append({"kind": "two", "a": list(na), "b": list(nb), "reg": reg, "ka": ka, "kb": kb, "plain": plain, "cost": cost})
     if tier == "thorough":
         for names in stream_names(4):
             if len([x for x in names]) < 4:
@@ -396,13 +720,25 @@ def shards(tier):
     return out
 
 
+def _ncomb(n, k):
+    r = 1
+    for i in range(k):
+        r = r * (n - i) // (i + 1)
+    return max(r, 0)
+
+
 def run_shard(item):
-    rec = Rec(PROPERTY, {"batch_size": len(item["batch"]), "first": item["batch"][0]["names"]})
+    rec = Rec(PROPERTY, {"batch_size": len(item["batch"]), "first": item["batch"][0].get("names") or item["batch"][0].get("a")})
+    keeper = Keeper(rec, PROPERTY, depth=2)
     for x in item["batch"]:
         if x["kind"] == "sched":
-            explore_stream(rec, x["names"], x["mode"], x["kcut"])
+            explore_stream(rec, x["names"], x["mode"], x["kcut"], keeper)
+        elif x["kind"] == "two":
+            explore_two(rec, x["a"], x["b"], x["reg"], x["ka"], x["kb"], x["plain"], keeper)
         else:
             bfs_stream(rec, x["names"], x["max_chunks"])
+    keeper.recheck(None)
+    keeper.flush()
     ex = rec.extra.get("distinct_outcomes_per_stream", [])
     rec.extra = {"min_outcomes": min(ex) if ex else None, "max_outcomes": max(ex) if ex else None}
     return rec.result()
@@ -411,6 +747,14 @@ def run_shard(item):
 def replay(case):
     rec = Rec(PROPERTY, "replay")
     case = unhex(case)
+    if "two" in case:
+        sp = _sp()
+        qs = [_Queue(case["two"][0], 0), _Queue(case["two"][1], 1)]
+        scheds = [tuple(int(c) for c in x) for x in case["scheds"]]
+        v, calls = run_two(sp, qs, (qs[0].events(scheds[0]), qs[1].events(scheds[1])), case["merge"], case["reg"], _reg_lists(sp, qs, case["reg"]))
+        if v:
+            rec.violation(two_sig(v[0], v[1]), case, v[2], None)
+        return rec.result()
     names = case["names"]
     if "bfs_history" in case:
         replay_bfs(rec, names, case["bfs_history"])
@@ -428,4 +772,6 @@ def replay(case):
 def finalize(tier, agg):
     mx = [e.get("max_outcomes") for e in agg["extra"] if e.get("max_outcomes")]
     return {"max_distinct_outcomes_in_one_stream": max(mx) if mx else 0,
-            "schedules": agg["counters"].get("schedules_all", 0) + agg["counters"].get("schedules_cuts", 0)}
+            "schedules": agg["counters"].get("schedules_all", 0) + agg["counters"].get("schedules_cuts", 0),
+            "two_queue_interleavings": agg["counters"].get("two_queue_cases", 0),
+            "two_queue_stream_pairs": len(TWO_STREAMS) * (len(TWO_STREAMS) + 1) // 2}
